@@ -183,7 +183,7 @@ class C15(Lab):
         "one instance per generated class (state bookkeeping of StatefulAutonomous lives on the class-level state objects)",
         "SmartDashboard values are written through the NetworkTables table 'SmartDashboard' of the default instance",
     )
-    budgets = {"quick": 4000, "thorough": 200000}
+    budgets = {"quick": 6000, "thorough": 200000}
     time_budget = {"quick": 80, "thorough": 1500}
 
     def setup(self):
